@@ -19,7 +19,7 @@ CLAIMS = {
  "C09": dict(level="model_checking", tech="TLC liveness (poll terminates) + quiescent-completeness invariant on both router modules with explicit waker slots; wake-driven executor replay + trace validation (spin budget, work bound, quiescent obligations)",
              text="The router models carry the waker slots of every child and a wake-driven executor; TLC checks that every outer poll terminates and that an idle un-woken router has no undone work; the harness executor re-polls only on wake-up, counts inner polls, and every quiescent point of every replayed schedule is validated.",
              note=ROUTER_NOTE, ref="DESIGN.md 4 C09"),
- "C10": dict(level="model_checking", tech="TLC model checking of ReqRepRouter.tla (3 repliers: bind/reject/rebind, liveness of the decision) + trace validation against ReqRepIface.tla",
+ "C10": dict(level="model_checking", tech="TLC model checking of ReqRepRouter.tla (3 repliers: bind/reject/rebind, liveness of the decision) + trace validation against ReqRepIface.tla; ReplierLife.tla (bound / standby / take-over with the client library's keep-alive; liveness) model-checked and its schedules replayed with real repliers against the real server (Trace_ReplierLife.tla)",
              text="At most one bound replier, reject = error frame then close and nothing else, bound replier unaffected, rebind after departure: invariants and refinement checked exhaustively for 3 repliers; replayed schedules validated.",
              note=ROUTER_NOTE, ref="DESIGN.md 4 C10"),
  "C16": dict(level="model_checking", tech="TLC: CloseChannel enabled in every idle state of both router models; Live_ShutdownTerminates + Inv_ShutdownFlushed; close schedules replayed on the real routers and validated; ServerLife.tla (registrations racing with Server::shutdown, two locks, close-then-join; liveness) model-checked and TLC-enumerated situations built with a real server that receives the interrupt signal (Trace_ServerLife.tla)",
